@@ -95,9 +95,9 @@ func uvarint(b []byte) (v uint64, n int) {
 }
 
 var items = [nItems]item{
-	itSendA:        {"sendA", "send", func(w *world, h uint64) []byte { return send(10, 11, 1000, h, "") }},
-	itSendB:        {"sendB", "send", func(w *world, h uint64) []byte { return send(12, 13, 2000, h, "") }},
-	itEditStake:    {"editStake", "edit-stake", func(w *world, h uint64) []byte {
+	itSendA: {"sendA", "send", func(w *world, h uint64) []byte { return send(10, 11, 1000, h, "") }},
+	itSendB: {"sendB", "send", func(w *world, h uint64) []byte { return send(12, 13, 2000, h, "") }},
+	itEditStake: {"editStake", "edit-stake", func(w *world, h uint64) []byte {
 		k := env.BLS(2)
 		return mustTx(fsm.NewEditStakeTx(k, env.Addr(k), env.Addr(k), "tcp://v2", []uint64{env.ChainID}, 1_000_000+1000*h, env.NetworkID, env.ChainID, 10000, h, true, ""))
 	}},
